@@ -63,7 +63,11 @@ func Compile(grammar *Grammar, opts Options) (*Tables, error) {
 		minimize(c.out, grammar, c.empty)
 		verifPoint("minimized", grammar, opts, c.out, c.s.Err())
 	}
-	if opts.Optimize {
+	if opts.Optimize && c.out.UsedLADepth > 0 {
+		// The displacement encoding (and the parsers generated for it) can only express LALR(1)
+		// decisions; the deeper lookahead tries have no representation there.
+		c.s.Errorf(grammar.Origin, "optimizeTables cannot be combined with conflicts that are resolved with more than one token of lookahead (lalr(%v)); disable optimizeTables or rewrite the grammar to be LALR(1)", c.lookahead)
+	} else if opts.Optimize {
 		numRules := len(c.out.RuleLen) // takes into account runtime lookahead rules
 		c.out.Optimized = Optimize(c.out.DefaultEnc, grammar.Terminals, numRules, opts.DefaultReduce)
 		verifPoint("optimized", grammar, opts, c.out, c.s.Err())
